@@ -21,6 +21,10 @@ def replay_graph(v, module, cfg, tag, profile, stack_pars, ev, hid_keys=None):
     runs, unreachable = edge_tours(edges, inits)
     if unreachable:
         raise ToolError(f"{len(unreachable)} exported edges start in states unreachable from the initial states")
+    # histories: long seeded random walks of the same graph (one reader, hundreds of seeks and reads)
+    walks = random_walks(edges, inits, 30 if "quick" in cfg else 300, 200, seed() + 99)
+    ev["random_walk_steps"] = ev.get("random_walk_steps", 0) + sum(len(s) for _, s in walks)
+    runs = runs + walks
     wd = workdir(tag)
     total = dict(runs=0, steps=0, hidden=0, drifts=0)
     build(profile)
